@@ -23,7 +23,7 @@ ASSUMPTIONS = unitkit.UNITS_STUB_TEXT + [
     "a division by a term that may be zero forks; on the zero side the library's own ZeroDivisionError propagates and is reported (no denominator is assumed away)",
 ]
 OUTSIDE = ['temperature / logarithmic operands (C05)', 'arrays longer than 2', 'binary64 rounding']
-BOUNDS = {'quick': {'unit pairs': '24 +/- pairs, 22 */ pairs', 'exponents': 'n/d, n in -3..3, d in 1..4, as int, tuple, Fraction, float'},
+BOUNDS = {'quick': {'unit pairs': '24 +/- pairs, 22 */ pairs', 'exponents': 'n/d, n in -3..3, d in 1..4, as int, tuple, Fraction, float, NumPy floats; whole exponents (also unreduced pairs / Fractions) on magnitudes of either sign', 'numpy left operands': '6 NumPy scalars/arrays x 5 units x 4 operators (concrete)'},
           'thorough': {'unit pairs': 'plus 120 random same-dimension pairs and 120 random products from the prefixed-symbol list', 'exponents': 'same, on 6 base units'}}
 EXHAUSTIVE = {'quick': False, 'thorough': False}
 PRE = "from scinumtools.units import Quantity, Fraction\nimport fractions as _fr\nimport numpy as np\n" + unitkit.REF_SRC + '''
